@@ -29,7 +29,10 @@ theorem le_removeConsolidate (f : Forest) (prev next : Option Nat) :
 
 theorem le_addConsolidate (f : Forest) (node : Nat) (prev next : Option Nat) :
     Le f (f.addConsolidate node prev next).1 := by
-  unfold addConsolidate
+  rw [addConsolidate_eq_old]
+  generalize f.selfPrev node prev = prev
+  generalize f.selfNext node next = next
+  unfold addConsolidateOld
   split
   · exact Le.refl f
   · cases f.textOf node with
